@@ -27,6 +27,7 @@ pub enum Family {
     BitFlipPairs,
     FooterRespell,
     SigRange,
+    TagBitPairs,
 }
 impl Family {
     fn name(self) -> &'static str {
@@ -43,6 +44,7 @@ impl Family {
             Family::BitFlipPairs => "8-bitflip-pairs",
             Family::FooterRespell => "9-footer-respelled",
             Family::SigRange => "10-signature-value-range",
+            Family::TagBitPairs => "11-tag-bit-pairs",
         }
     }
 }
@@ -490,6 +492,33 @@ pub fn mutants(fam: Family, proto: Proto, t: &str, others: &[String]) -> Vec<Str
                 }
             }
         }
+        Family::TagBitPairs => {
+            // two bits of the tag / signature flipped together: the same bit in every pair of its bytes, and
+            // every pair of bits inside one byte (a comparison that folds differences with XOR, or compares
+            // lane sums, lets correlated differences cancel)
+            let d = &p.decoded;
+            let tail = proto.tail_len().min(64);
+            if d.len() >= tail {
+                let start = d.len() - tail;
+                for i in 0..tail {
+                    for j in (i + 1)..tail {
+                        for bit in 0..8u8 {
+                            let mut m = d.clone();
+                            m[start + i] ^= 1 << bit;
+                            m[start + j] ^= 1 << bit;
+                            out.push(reassemble(&p, &m));
+                        }
+                    }
+                    for b1 in 0..8u8 {
+                        for b2 in (b1 + 1)..8u8 {
+                            let mut m = d.clone();
+                            m[start + i] ^= (1 << b1) | (1 << b2);
+                            out.push(reassemble(&p, &m));
+                        }
+                    }
+                }
+            }
+        }
         Family::BitFlipPairs => {
             let bits = p.decoded.len() * 8;
             for i in 0..bits {
@@ -623,6 +652,7 @@ pub fn run(tier: &str) -> i32 {
         Family::SigReencode,
         Family::FooterRespell,
         Family::SigRange,
+        Family::TagBitPairs,
     ];
     if !quick {
         fams.push(Family::BitFlipPairs);
@@ -644,6 +674,13 @@ pub fn run(tier: &str) -> i32 {
                 // run on the two other bases
                 let fffd_base = bs[bi].case.footer.as_deref().map_or(false, |f| f.contains('\u{fffd}'));
                 if fffd_base && !matches!(f, Family::FooterRespell | Family::NonCanonical | Family::Splice | Family::BoundaryShift | Family::Prefix | Family::SigRange) {
+                    continue;
+                }
+                if *f == Family::TagBitPairs {
+                    // the shortest base of the protocol, core layer (the comparison under test is the core's)
+                    if bi == 0 {
+                        units.push((*p, bi, *f, Layer::Core));
+                    }
                     continue;
                 }
                 for l in Layer::ALL {
